@@ -317,10 +317,18 @@ pub fn w1(name: &str, f: ScenarioFn, seed: u64, l: &mut Local) {
     // one constant jitter per pair: the order in which the daemon visits its interfaces (a
     // HashMap) differs between the two runs and must not change who gets which jitter
     let jitter = Some(util::mix(seed, 7) % 250);
-    set_overrides(Some(Overrides { stepping: Some(Stepping::Lazy), record_gates: true, snapshot_level: 2, jitter_const: jitter }));
+    set_overrides(Some(Overrides { stepping: Some(Stepping::Lazy), record_gates: true, snapshot_level: 2, jitter_const: jitter, send_cost_ms: None }));
     let lazy = f(seed);
-    set_overrides(Some(Overrides { stepping: Some(Stepping::Eager(g)), record_gates: false, snapshot_level: 0, jitter_const: jitter }));
+    set_overrides(Some(Overrides { stepping: Some(Stepping::Eager(g)), record_gates: false, snapshot_level: 0, jitter_const: jitter, send_cost_ms: None }));
     let eager = f(seed);
+    // a third run in which every datagram sent costs 1-3 ms: timers fall due while the daemon is busy
+    let cost = 1 + util::mix(seed, 8) % 3;
+    let busy = if util::mix(seed, 9) % 4 != 0 {
+        set_overrides(Some(Overrides { stepping: Some(Stepping::Lazy), record_gates: true, snapshot_level: 0, jitter_const: jitter, send_cost_ms: Some(cost) }));
+        Some(f(seed))
+    } else {
+        None
+    };
     set_overrides(None);
     l.evaluations += 1;
     l.count("daemon_iterations", lazy.world.total_iterations + eager.world.total_iterations);
@@ -337,6 +345,16 @@ pub fn w1(name: &str, f: ScenarioFn, seed: u64, l: &mut Local) {
     }
     // W2, W3 on the lazy run
     w2_w3(name, &lazy, l);
+    // W4 on the lazy run and on the busy run
+    w4(name, &lazy, "", l);
+    if let Some(b) = &busy {
+        if b.world.trace.deaths().any(|d| matches!(d.ev, Ev::Death { panicked: true, .. })) {
+            l.inconclusive.push(format!("daemon died in a C12 scenario with costly sends ({name}, seed {seed})"));
+            return;
+        }
+        l.count("daemon_iterations", b.world.total_iterations);
+        w4(name, b, "/busy", l);
+    }
 
     // W1
     let t_first = lazy.world.trace.entries.first().map(|e| e.t).unwrap_or(0);
@@ -409,6 +427,44 @@ fn key_class(key: &str) -> String {
         "goodbye".into()
     } else {
         "response".into()
+    }
+}
+
+// ---------------------------------------------------------------------------
+// W4: the time-out the run loop computes for its poll, against its earliest timer
+
+fn w4(name: &str, run: &Run, mode: &str, l: &mut Local) {
+    let trace = &run.world.trace;
+    for e in trace.entries.iter() {
+        let Ev::Gate(g) = &e.ev else { continue };
+        let Some(timer) = g.wakeup else { continue };
+        let now = g.gate_now;
+        l.act("W4");
+        if timer < now {
+            l.act("W4-overdue");
+        }
+        let bound = timer.max(now + 1);
+        let asked = g.poll_timeout_ms.map(|t| now + t);
+        if asked.is_some_and(|a| a <= bound) {
+            continue;
+        }
+        let when = if timer < now { "overdue" } else if timer == now { "due-now" } else { "future" };
+        l.violate(
+            Violation::new(
+                "W4",
+                format!("W4/poll-timeout-after-earliest-timer/{}/{when}", if asked.is_none() { "no-timeout" } else { "late" }),
+                format!(
+                    "at +{} ms the run loop is about to poll with {} while its earliest timer is {} ms {}",
+                    now.saturating_sub(trace.entries[0].t),
+                    g.poll_timeout_ms.map(|t| format!("a time-out of {t} ms")).unwrap_or_else(|| "no time-out".into()),
+                    timer.abs_diff(now),
+                    if timer < now { "overdue" } else { "away" }
+                ),
+            )
+            .with(json!({"scenario": format!("{name}{mode}"), "desc": run.desc, "api": scen::api_log(trace),
+                         "trace": scen::witness_window(trace, e.t.saturating_sub(2000), e.t, 40)})),
+        );
+        return;
     }
 }
 
@@ -543,9 +599,10 @@ pub fn run(report: &Report, tier: &Tier) {
          W2/W3 evaluated at every gate of the lazy run with full state snapshots; distinct by (scenario, shape)",
     );
     report.assume("W2 covers retransmissions, probes, resolver deadlines and expiry of PTR/address records and of SRV/TXT reachable from a PTR; the interface check (a local of the run loop) is covered by W1 only");
-    for r in ["W1", "W2", "W3"] {
+    for r in ["W1", "W2", "W3", "W4"] {
         report.floor(r, 200);
     }
+    report.floor("W4-overdue", 60);
     let seed = report.seed;
     let n: u64 = if tier.thorough { 60_000 } else { 1_200 };
     run_parallel(report, n, threads(), tier.budget_s, |i, l| {
